@@ -7,7 +7,7 @@ rsync -a --exclude .git /repo/ "$d"/
 ( cd "$d" && git init -q . 2>/dev/null && git apply --whitespace=nowarn "$patch" ) || { echo "PATCH FAILED"; rm -rf "$d"; exit 3; }
 rc=0
 for p in "$@"; do
-  VERIF_NOEVIDENCE=1 /verif/bin/sdfxlint check -p "$p" -repo "$d" | sed "s#$d/##g" | cut -c1-${CUT:-420}
+  VERIF_NOEVIDENCE=1 ${BIN:-/verif/bin/sdfxlint} check -p "$p" -repo "$d" | sed "s#$d/##g" | cut -c1-${CUT:-420}
   r=${PIPESTATUS[0]}; echo "  -> exit $r ($p)"; [ $r -ne 0 ] && rc=$r
 done
 rm -rf "$d"
